@@ -508,45 +508,78 @@ func funcValue(v ssa.Value) (ssa.Value, bool) {
 // funcTargets: the functions a called value can denote, when that is a finite set read off the code: a
 // function or closure, a merge of such, or a parameter of an unexported function or closure whose every call
 // site passes such a value. nil when some possibility is unknown.
+// funcVal_: a function value: the function and, when it is a closure or a bound method value, the instruction
+// that made it (its bindings are what the free variables denote).
+type funcVal_ struct {
+	fn *ssa.Function
+	mc *ssa.MakeClosure
+}
+
+func funcValFuncs(vs []funcVal_) []*ssa.Function {
+	if vs == nil {
+		return nil
+	}
+	out := make([]*ssa.Function, 0, len(vs))
+	for _, v := range vs {
+		out = append(out, v.fn)
+	}
+	return out
+}
+
 func funcTargets(c *Ctx, v ssa.Value, depth int) []*ssa.Function {
 	return funcTargetsLive(c, v, nil, depth)
 }
 
+func funcTargetsLive(c *Ctx, v ssa.Value, live func(phi *ssa.Phi, i int) bool, depth int) []*ssa.Function {
+	return funcValFuncs(funcValsLive(c, v, live, depth))
+}
+
+func funcElems(c *Ctx, v ssa.Value, live func(phi *ssa.Phi, i int) bool, depth int) []*ssa.Function {
+	return funcValFuncs(funcElemVals(c, v, live, depth))
+}
+
 // funcTargetsLive is funcTargets with a filter on the incoming edges of merges (edges that are dead under
 // the constant bindings of a specialised analysis).
-func funcTargetsLive(c *Ctx, v ssa.Value, live func(phi *ssa.Phi, i int) bool, depth int) []*ssa.Function {
+func funcValsLive(c *Ctx, v ssa.Value, live func(phi *ssa.Phi, i int) bool, depth int) []funcVal_ {
 	if depth > 4 {
 		return nil
 	}
 	switch x := v.(type) {
 	case *ssa.Function:
-		return []*ssa.Function{unthunk(x)}
+		return []funcVal_{{unthunk(x), nil}}
 	case *ssa.MakeClosure:
 		if f, ok := x.Fn.(*ssa.Function); ok {
-			return []*ssa.Function{f}
+			return []funcVal_{{f, x}}
 		}
 	case *ssa.ChangeType:
-		return funcTargetsLive(c, x.X, live, depth+1)
+		return funcValsLive(c, x.X, live, depth+1)
 	case *ssa.Phi:
-		var out []*ssa.Function
+		var out []funcVal_
 		for i, e := range x.Edges {
 			if e == ssa.Value(x) || (live != nil && !live(x, i)) {
 				continue
 			}
-			t := funcTargetsLive(c, e, live, depth+1)
+			t := funcValsLive(c, e, live, depth+1)
 			if t == nil {
 				return nil
 			}
 			out = append(out, t...)
 		}
 		return out
+	case *ssa.Index:
+		// an element of an array of functions: any of the functions the array can hold
+		return funcElemVals(c, x.X, live, depth+1)
+	case *ssa.UnOp:
+		if ia, ok := x.X.(*ssa.IndexAddr); ok && x.Op == token.MUL {
+			return funcElemVals(c, ia.X, live, depth+1)
+		}
 	case *ssa.Parameter:
 		fn := x.Parent()
 		if fn == nil || (fn.Object() != nil && fn.Object().Exported()) {
 			return nil
 		}
 		idx := paramIndex(fn, x)
-		var out []*ssa.Function
+		var out []funcVal_
 		n := 0
 		for _, g := range c.Funcs {
 			for _, b := range g.Blocks {
@@ -563,7 +596,117 @@ func funcTargetsLive(c *Ctx, v ssa.Value, live func(phi *ssa.Phi, i int) bool, d
 						continue
 					}
 					n++
-					t := funcTargets(c, call.Common().Args[idx], depth+1)
+					t := funcValsLive(c, call.Common().Args[idx], nil, depth+1)
+					if t == nil {
+						return nil
+					}
+					out = append(out, t...)
+				}
+			}
+		}
+		if n == 0 {
+			return nil
+		}
+		return out
+	}
+	return nil
+}
+
+// funcElems: the functions an array or slice of functions (or a pointer to such an array) can hold: what
+// the code stores into the local it lives in, or what every call site of an unexported function passes.
+// nil when some possibility is unknown.
+func funcElemVals(c *Ctx, v ssa.Value, live func(phi *ssa.Phi, i int) bool, depth int) []funcVal_ {
+	if depth > 6 {
+		return nil
+	}
+	switch x := v.(type) {
+	case *ssa.Alloc:
+		if x.Referrers() == nil {
+			return nil
+		}
+		var out []funcVal_
+		n := 0
+		var uses func(addr ssa.Value) bool
+		uses = func(addr ssa.Value) bool {
+			if addr.Referrers() == nil {
+				return true
+			}
+			for _, ref := range *addr.Referrers() {
+				switch u := ref.(type) {
+				case *ssa.Store:
+					if u.Addr != addr {
+						return false // the address itself escapes into memory
+					}
+					var t []funcVal_
+					if addr == ssa.Value(x) {
+						t = funcElemVals(c, u.Val, live, depth+1) // the whole array at once
+					} else {
+						t = funcValsLive(c, u.Val, live, depth+1)
+					}
+					if t == nil {
+						if k, isK := u.Val.(*ssa.Const); isK && k.Value == nil {
+							continue // the zero value: no function
+						}
+						return false
+					}
+					n++
+					out = append(out, t...)
+				case *ssa.IndexAddr:
+					if !uses(u) {
+						return false
+					}
+				case *ssa.UnOp, *ssa.Slice, *ssa.DebugRef:
+					// read
+				default:
+					return false
+				}
+			}
+			return true
+		}
+		if !uses(x) || n == 0 {
+			return nil
+		}
+		return out
+	case *ssa.UnOp:
+		if x.Op == token.MUL {
+			if al, ok := x.X.(*ssa.Alloc); ok {
+				return funcElemVals(c, al, live, depth+1)
+			}
+		}
+	case *ssa.Slice:
+		return funcElemVals(c, x.X, live, depth+1)
+	case *ssa.ChangeType:
+		return funcElemVals(c, x.X, live, depth+1)
+	case *ssa.Phi:
+		var out []funcVal_
+		for i, e := range x.Edges {
+			if e == ssa.Value(x) || (live != nil && !live(x, i)) {
+				continue
+			}
+			t := funcElemVals(c, e, live, depth+1)
+			if t == nil {
+				return nil
+			}
+			out = append(out, t...)
+		}
+		return out
+	case *ssa.Parameter:
+		fn := x.Parent()
+		if fn == nil || (fn.Object() != nil && fn.Object().Exported()) {
+			return nil
+		}
+		idx := paramIndex(fn, x)
+		var out []funcVal_
+		n := 0
+		for _, g := range c.Funcs {
+			for _, b := range g.Blocks {
+				for _, ins := range b.Instrs {
+					call, ok := ins.(ssa.CallInstruction)
+					if !ok || call.Common().StaticCallee() != fn || idx >= len(call.Common().Args) {
+						continue
+					}
+					n++
+					t := funcElemVals(c, call.Common().Args[idx], nil, depth+1)
 					if t == nil {
 						return nil
 					}
